@@ -175,8 +175,9 @@ def numba_newton_raphson(
             # If we bound the root we can start using secant - if it wants to
             # escape the bounds we will just use a bisection step, if it doesn't
             # secant is faster than bisection.
-            if root_bounded and current_iteration > 1:
-                # Secant estimate
+            if root_bounded and current_iteration > 1 and iterates[2] != iterates[1]:
+                # Secant estimate (needs two distinct points: a bisection step can
+                # return to the previous iterate when the function jumps across zero)
                 derivative = (func_evals[2] - func_evals[1]) / (
                     iterates[2] - iterates[1]
                 )
